@@ -190,6 +190,19 @@ prop("C17",
      residual="value preservation after rename/move/duplicate (re-parse against the worksheet list, reset_parsed_structures, defined names, duplicate_sheet name handling)")
 
 
+prop("C16",
+     units=["movearms", "cutcf", "refshift"],
+     level="proof",
+     claim="cut: in a moved formula a reference whose target lies in the cut area is displaced by the move and a range only if BOTH corners lie inside it, "
+           "everything else keeps its coordinates (and is qualified with the source sheet when the formula changes sheet); conditional-format ranges follow the same "
+           "both-corners rule; copy: the copied formula is parsed in the source cell's context and printed in the target cell's context, so relative references shift by the "
+           "paste offset and, by the contract of stringify_reference, print #REF! when they leave the grid",
+     assumptions=["stringify_reference prints a function of its arguments (its own contract is unit refshift); parser.parse / to_localized_string are stubs whose only "
+                  "contracted aspect is the cell context they are given", "coordinates within +-2^22"],
+     residual="pasted contents/styles/links/values (clipboard.rs), external references into the cut area (get_external_formula_updates_for_cut string rewriting), "
+              "the non-reference arms of to_string_moved")
+
+
 def evidence(pid, tier, seed, results, scan_results, kani_results, violations, known_hits, undecided, wall):
     P = PROPS[pid]
     obligations = 0
